@@ -1143,8 +1143,17 @@ impl<'a> Run<'a> {
     }
     fn finish(&mut self) {
         let pend = std::mem::take(&mut self.pending);
-        let have_spec = self.rep.violations.iter().any(|v| v.kind == Kind::SpecViolated);
         for (p, d) in pend {
+            // a mismatch of one generator is explained only by a spec violation of the same generator
+            let family: &[&str] = match d.key.as_str() {
+                "C18/raw.tone" => &["C18/tone."],
+                "C18/raw.noise" => &["C18/noise."],
+                "C18/raw.envelope" => &["C18/envelope."],
+                "C18/raw.mix" => &["C18/mixer.", "C18/pan.", "C18/dac."],
+                "C18/readback.model" => &["C18/readback"],
+                _ => &[],
+            };
+            let have_spec = self.rep.violations.iter().any(|v| v.kind == Kind::SpecViolated && family.iter().any(|f| v.key.starts_with(f)));
             if have_spec {
                 self.rep.notes.push(format!("code/model mismatch {} attributed to the spec violation(s) reported", d.key));
             } else {
